@@ -40,7 +40,11 @@ func (o goMapObject) toKey(name string) reflect.Value {
 func (o goMapObject) toValue(value Value) reflect.Value {
 	reflectValue, err := value.toReflectValue(o.valueType)
 	if err != nil {
-		panic(err)
+		panicConversionError(err)
+	}
+	if !reflectValue.IsValid() {
+		// undefined/null for an interface{} element: store nil (an invalid Value would delete the key)
+		reflectValue = reflect.Zero(o.valueType)
 	}
 	return reflectValue
 }
